@@ -184,7 +184,41 @@ func main() {
 			xlib.Unreadable("UnprefixedHashes: no element assignment found")
 		}
 	}
+	// dependency-list accessors: sorted after the fill loop, or returned in insertion (= declaration) order
+	type acc struct{ fn, order string }
+	var accs []acc
+	for _, name := range []string{"BuildTarget.DeclaredDependencies", "BuildTarget.DeclaredDependenciesStrict", "BuildTarget.BuildDependencies", "BuildTarget.ExportedDependencies"} {
+		fd := core.Func(name)
+		lastRange, sortPos := token.NoPos, token.NoPos
+		for _, st := range fd.Body.List {
+			switch x := st.(type) {
+			case *ast.RangeStmt:
+				lastRange = x.Pos()
+			case *ast.ExprStmt:
+				src := core.Src(x)
+				if strings.HasPrefix(src, "sort.Sort(") || strings.HasPrefix(src, "sort.Stable(") || strings.HasPrefix(src, "slices.SortFunc(") {
+					sortPos = x.Pos()
+				}
+			}
+		}
+		if lastRange == token.NoPos {
+			xlib.Unreadable("%s: no loop over the dependencies", name)
+		}
+		order := "insertion-order"
+		if sortPos > lastRange {
+			order = "sorted"
+		}
+		accs = append(accs, acc{name, order})
+	}
 	var b strings.Builder
+	b.WriteString("def depOrderAccessors : List (String × String) := [")
+	for i, a := range accs {
+		if i > 0 {
+			b.WriteString(", ")
+		}
+		fmt.Fprintf(&b, "(%s, %s)", xlib.LeanStr(a.fn), xlib.LeanStr(a.order))
+	}
+	b.WriteString("]\n")
 	fmt.Fprintf(&b, "def unprefixedAliases : Bool := %s\n", xlib.LeanBool(aliases))
 	b.WriteString("def mapRanges : List (String × String × String) := [\n")
 	for i, x := range fs {
@@ -230,10 +264,11 @@ func classify(f *xlib.File, r *ast.RangeStmt, after []ast.Stmt) string {
 	// max: for k, v := range m { if k > best { best = k; bestV = v } }
 	if key != nil && val != nil && len(body) == 1 {
 		if is, ok := body[0].(*ast.IfStmt); ok && is.Else == nil && is.Init == nil {
-			if be, ok := is.Cond.(*ast.BinaryExpr); ok && (be.Op == token.GTR || be.Op == token.LSS) {
+			// exactly `key > best`: keep the entry with the greatest key
+			if be, ok := is.Cond.(*ast.BinaryExpr); ok && be.Op == token.GTR {
 				l, _ := be.X.(*ast.Ident)
 				rr, _ := be.Y.(*ast.Ident)
-				if l != nil && rr != nil && (l.Name == key.Name || rr.Name == key.Name) && len(is.Body.List) == 2 {
+				if l != nil && rr != nil && l.Name == key.Name && rr.Name != key.Name && len(is.Body.List) == 2 {
 					ok := true
 					for _, s := range is.Body.List {
 						as, isAs := s.(*ast.AssignStmt)
